@@ -69,14 +69,11 @@ Lemma R_after_ret r k o late :
 Proof.
   intros Hk fin ->. unfold R. cbn [a_late a_img a_ph m_orphans m_last].
   split; [reflexivity|]. split; [reflexivity|].
-  unfold after_ret. destruct o; cbn [is_final is_ok a_ph].
+  unfold after_ret. destruct (is_final o) eqn:Ef; cbn [a_ph].
   - repeat split; lia.
-  - destruct (S k <=? r) eqn:E.
-    + apply Nat.leb_le in E. repeat split; try lia. apply Nat.eqb_refl.
-    + apply Nat.leb_gt in E. repeat split; lia.
-  - repeat split; lia.
-  - repeat split; lia.
-  - destruct (S k <=? r) eqn:E.
+  - assert (Hok : is_ok o = false).
+    { destruct (is_ok o) eqn:Eo; [|reflexivity]. apply is_ok_final in Eo. congruence. }
+    rewrite Hok. destruct (S k <=? r) eqn:E; cbn [a_ph].
     + apply Nat.leb_le in E. repeat split; try lia. apply Nat.eqb_refl.
     + apply Nat.leb_gt in E. repeat split; lia.
 Qed.
